@@ -68,8 +68,8 @@ class World:
 
 
 def pyval(v):
-    """a written value of the specification -> the Python value handed to the Executor (1001 / 1000 stand for TRUE / FALSE, see Workbook4!OvVal)"""
-    return True if v == 1001 else False if v == 1000 else v
+    """a written value of the specification -> the Python value handed to the Executor (1001 / 1000 stand for TRUE / FALSE, 999 for None = no content, see Workbook4!OvVal)"""
+    return True if v == 1001 else False if v == 1000 else None if v == 999 else v
 
 
 def mk_cell(pos, value=None, style=0):
